@@ -17,7 +17,7 @@
      one found"); candidates are pairwise distinguishable after the folding above, so it is the only one;
    * the bytes of a value are shipped only for part of the values: [framed = []] claims nothing about the framing. *)
 From Coq Require Import List Bool Arith NArith Lia.
-From Verif Require Import Base64 Crypto CryptoProofs Run_Crypto.
+From Verif Require Import Tag Base64 Crypto CryptoProofs Run_Crypto.
 Import ListNotations.
 Open Scope list_scope.
 
@@ -276,10 +276,99 @@ Proof.
   - inversion H as [|? ? Ha Hr]; subst. rewrite Ha. apply IH. exact Hr.
 Qed.
 
+(* ---------- a rotation payload whose accessors start events on the same filter ---------- *)
+(* The rotation payload was consumed; every event an accessor started is an execution of the model in the state BEFORE the rotation
+   or in the state AFTER it (never in between: the rotation payload is one atomic step) - for a plain event each VALUE may be
+   under the old or the new filter triple, an event with wrapper info is wholly under key_in_force of one of the two states;
+   the event processed next is under the rotated state. *)
+Definition hooked_accept (st0 st1 : fstate N) (h : option ewinfo * list (cop * bstr) * cobs) : Prop :=
+  match h with
+  | (ewi, vals, ob) =>
+      step_accept st0 (OEvent N ewi vals) ob \/ step_accept st1 (OEvent N ewi vals) ob \/
+      (ewi = None /\ exists t0 t1 os, kif st0 None = Some t0 /\ kif st1 None = Some t1 /\ ob = CoValues os /\
+                                    Forall2 (fun v o => value_ok t0 (fst v) o \/ value_ok t1 (fst v) o) vals os)
+  end.
+Definition rp_accepted (c : rpcase) : Prop :=
+  rp_consumed c = true /\ Forall (hooked_accept (rp_init c) (rp_rotated c)) (rp_hooked c) /\
+  step_accept (rp_rotated c) (OEvent N None (rp_after c)) (rp_after_obs c).
+
+Lemma nilb_iff {A} (l : list A) : nilb l = true <-> l = [].
+Proof. destruct l; cbn; split; intros; auto; discriminate. Qed.
+
+Lemma check_values2_iff t0 t1 : forall vals os,
+  check_values2 t0 t1 vals os = true <-> Forall2 (fun v o => value_ok t0 (fst v) o \/ value_ok t1 (fst v) o) vals os.
+Proof.
+  induction vals as [|[c m] r IH]; intros [|o r']; cbn [check_values2]; split; intros H; try constructor; try discriminate; try (inversion H; fail); try reflexivity.
+  - apply andb_true_iff in H as [H1 _]. apply orb_true_iff in H1 as [H1|H1]; apply nilb_iff in H1; apply check_value_iff in H1; cbn [fst]; auto.
+  - apply andb_true_iff in H as [_ H2]. apply IH. exact H2.
+  - inversion H as [|? ? ? ? Hv Hr]; subst. cbn [fst] in Hv. apply andb_true_iff. split; [|apply IH; exact Hr].
+    apply orb_true_iff. destruct Hv as [Hv|Hv]; apply check_value_iff in Hv; [left|right]; apply nilb_iff; exact Hv.
+Qed.
+
+Lemma hooked_ok_iff st0 st1 h : hooked_ok st0 st1 h = true <-> hooked_accept st0 st1 h.
+Proof.
+  destruct h as [[ewi vals] ob]. unfold hooked_ok, hooked_accept. rewrite !orb_true_iff, !nilb_iff, !step_mm_iff.
+  split; (intros [[H|H]|H]; [left; exact H|right; left; exact H|right; right]) || (intros [H|[H|H]]; [left; left; exact H|left; right; exact H|right]).
+  - destruct ewi as [e|]; [discriminate|]. destruct ob as [| | | |os]; try discriminate.
+    destruct (kif st0 None) as [t0|]; [|discriminate]. destruct (kif st1 None) as [t1|]; [|discriminate].
+    split; [reflexivity|]. exists t0, t1, os. repeat split. apply check_values2_iff. exact H.
+  - destruct H as (-> & t0 & t1 & os & -> & -> & -> & H). apply check_values2_iff. exact H.
+Qed.
+
+Lemma rp_mm_iff c : rp_mm c = [] <-> rp_accepted c.
+Proof.
+  unfold rp_mm, rp_accepted. split.
+  - intros H. apply app_nil_both in H as [H1 H2]. apply app_nil_both in H2 as [H2 H3].
+    apply ite_nil in H1. apply ite_nil in H2. apply step_mm_iff in H3. repeat split; try assumption.
+    rewrite forallb_forall in H2. apply Forall_forall. intros h Hin. apply hooked_ok_iff. apply H2. exact Hin.
+  - intros (H1 & H2 & H3). apply step_mm_iff in H3. rewrite H1, H3.
+    replace (forallb (hooked_ok (rp_init c) (rp_rotated c)) (rp_hooked c)) with true; [reflexivity|].
+    symmetry. apply forallb_forall. intros h Hin. apply hooked_ok_iff. rewrite Forall_forall in H2. apply H2. exact Hin.
+Qed.
+
+(* ---------- events with tagged fields under an override table ---------- *)
+(* unless every class-level operation is none, a tagged event IS the model's event over the values whose tag resolves (Tag.v) to
+   encrypt / hmac-sha256 under the override table in force; its observation is accepted only if every such value is attributed
+   to the key in force for the event and every other value came out as its action says (unchanged / "[REDACTED]") *)
+Lemma tstep_event ov ewi fs r : all_none ov = false -> fst (tstep ov ewi fs r) = OEvent N ewi (crypto_vals ov fs).
+Proof. unfold tstep. intros ->. reflexivity. Qed.
+Lemma tstep_identity ov ewi fs r : all_none ov = true -> fst (tstep ov ewi fs r) = ORotate N None None None /\ (snd (tstep ov ewi fs r) = CoNone <-> r = TrSame).
+Proof. unfold tstep. intros ->. split; [reflexivity|]. destruct r; cbn [snd]; split; intros H; try reflexivity; discriminate. Qed.
+
+Definition tobs_ok (t : N * bstr * bstr) (a : act) (o : tobs) : Prop :=
+  match a, o with
+  | AEncrypt, TVal v => value_ok t (CEnc []) v
+  | AHmac, TVal v => value_ok t CHmac v
+  | ASkip, TText true _ => True
+  | ARedact, TText _ true => True
+  | _, _ => False
+  end.
+Lemma crypto_obs_ok ov t : forall fs os,
+  Forall2 (fun v o => value_ok t (fst v) o) (crypto_vals ov fs) (crypto_obs ov fs os) ->
+  Forall2 (fun f o => tobs_ok t (tact ov f) o) fs os.
+Proof.
+  assert (U : forall (c : cop * bstr), ~ value_ok t (fst c) VUnknown).
+  { intros [c m]. destruct t as [[w s] i]. destruct c; cbn; auto. }
+  induction fs as [|f r IH]; intros [|o r'] H; cbn [crypto_vals crypto_obs flat_map] in H.
+  - constructor.
+  - exfalso. inversion H.
+  - exfalso. destruct (tact ov f); cbn [app] in H; inversion H as [|? ? ? ? Hv Hr]; subst;
+      try (eapply U; exact Hv); inversion Hr as [|? ? ? ? Hv2 _]; subst; eapply U; exact Hv2.
+  - fold (crypto_vals ov r) in H. unfold tobs_ok at 1.
+    destruct (tact ov f) eqn:Ea; destruct o as [sm rd|v]; cbn [app] in H;
+      try (destruct sm); try (destruct rd); cbn [app] in H;
+      try (constructor; [rewrite Ea; cbn [tobs_ok]; exact I|apply IH; exact H]);
+      try (inversion H as [|? ? ? ? Hv Hr]; subst; constructor; [rewrite Ea; exact Hv|apply IH; exact Hr]);
+      exfalso.
+    all: try (inversion H as [|? ? ? ? Hv Hr]; subst; first [eapply U; exact Hv | inversion Hr as [|? ? ? ? Hv2 _]; subst; eapply U; exact Hv2]).
+    all: try (inversion H as [|? ? ? ? Hv Hr]; subst; cbn [fst] in Hv; destruct t as [[w s] i]; cbn in Hv; exact Hv).
+Qed.
+
 Definition case_accepted (c : ccase) : Prop :=
   accepted (cc_init c) [] (cc_steps c) /\
   Forall one_rotation (cc_conc c) /\      (* every HMAC value produced under concurrent rotation comes from ONE rotation's (wrapper, salt, info) *)
   Forall cb_accepted (cc_cbs c) /\        (* the events whose own callback rotates the filter: each value under the triple the model selects *)
+  Forall rp_accepted (cc_rps c) /\        (* the rotation payloads whose accessors start events: each of those wholly before or wholly after the rotation *)
   cc_caller c = true.                     (* the salt / info slices the caller configured the filters with kept their bytes *)
 
 Theorem mismatches_nil_iff : forall cs, mismatches cs = [] <-> Forall case_accepted cs.
@@ -287,15 +376,18 @@ Proof.
   induction cs as [|c cs IH]; [split; [constructor|reflexivity]|].
   unfold mismatches in *. cbn [flat_map]. split.
   - intros H. apply app_nil_both in H as [H1 H2]. constructor; [|apply IH; exact H2].
-    apply app_nil_both in H1 as [Ha Hb]. apply app_nil_both in Hb as [Hb Hc]. apply app_nil_both in Hc as [Hc Hd].
+    apply app_nil_both in H1 as [Ha Hb]. apply app_nil_both in Hb as [Hb Hc]. apply app_nil_both in Hc as [Hc Hr]. apply app_nil_both in Hr as [Hr Hd].
     apply map_nil in Ha. apply run_steps_nil_iff in Ha. apply ite_nil in Hb. apply ite_nil in Hd.
-    apply conc_ok_iff in Hb. apply flat_map_nil_iff in Hc. repeat split; try assumption.
-    eapply Forall_impl; [|exact Hc]. intros cb Hm. apply map_nil in Hm. apply cb_mm_iff. exact Hm.
-  - intros H. inversion H as [|c' cs' (Ha & Hb & Hc & Hd) Hf]; subst.
+    apply conc_ok_iff in Hb. apply flat_map_nil_iff in Hc. apply flat_map_nil_iff in Hr. repeat split; try assumption.
+    + eapply Forall_impl; [|exact Hc]. intros cb Hm. apply map_nil in Hm. apply cb_mm_iff. exact Hm.
+    + eapply Forall_impl; [|exact Hr]. intros rp Hm. apply map_nil in Hm. apply rp_mm_iff. exact Hm.
+  - intros H. inversion H as [|c' cs' (Ha & Hb & Hc & Hr & Hd) Hf]; subst.
     apply (run_steps_nil_iff _ _ _ 0%N) in Ha. apply conc_ok_iff in Hb.
     assert (Hc' : flat_map (fun cb => map (fun k => (cc_id c, (0%N, 2%N, k))) (cb_mm cb)) (cc_cbs c) = []).
     { apply flat_map_nil_iff. eapply Forall_impl; [|exact Hc]. intros cb Hm. apply cb_mm_iff in Hm. rewrite Hm. reflexivity. }
-    rewrite Ha, Hb, Hc', Hd. cbn [map app]. apply IH. exact Hf.
+    assert (Hr' : flat_map (fun rp => map (fun k => (cc_id c, (0%N, 3%N, k))) (rp_mm rp)) (cc_rps c) = []).
+    { apply flat_map_nil_iff. eapply Forall_impl; [|exact Hr]. intros rp Hm. apply rp_mm_iff in Hm. rewrite Hm. reflexivity. }
+    rewrite Ha, Hb, Hc', Hr', Hd. cbn [map app]. apply IH. exact Hf.
 Qed.
 Print Assumptions mismatches_nil_iff.
 
